@@ -796,7 +796,7 @@ func (e *faultsim) Run(t *core.Tape, want bool) *core.Result {
 			res.Count("interrupt-completed-after-the-call-returned", 1)
 			var ie *goja.InterruptedError
 			if errors.As(o.errObj, &ie) {
-				fail("interrupt-before-raise", fmt.Sprintf("the call returned an InterruptedError (value %v) although the interrupting goroutine was still suspended inside Interrupt() before its lock acquisition", ie.Value()))
+				fail("interrupt-before-raise", fmt.Sprintf("the call returned an InterruptedError (value %v) although the interrupting goroutine was still suspended inside Interrupt(), before it had taken the lock", ie.Value()))
 				lateBad = true
 			}
 		case f != nil && o.fired:
